@@ -2,6 +2,7 @@ import Req.Driver.Proto
 import Req.Client.Decode
 import Req.Client.DecodeSettings
 import Req.Client.RespHeader
+import Req.Client.Sniff
 /-!
 Driver lanes of C15.
 
@@ -30,6 +31,12 @@ the `<tbl>` argument: `in=out;in=out…`, hex, sent by the harness from x/text).
   about every Content-Type value in the block (and about `""`): `;`-joined `<ct hex>=<mp>/<lk>`.  The body
   arrives in one piece and carries no BOM / markup (nothing to sniff).  Answer:
   `<header map: keys sorted, key=v1,v2;…> <body delivered hex>` and, with `full`, ` <eof|…> <raw|hdr|auto:…>`.
+  With `pre` = `C` the model runs the CONCRETE scanner (`Req.Prescan` automaton + `Req.Labels` table) on the
+  sniffed bytes instead of looking the verdict up in a table stated by the harness.
+* `c15findc <content>` — `FindEncoding` with the concrete scanner: `none` or the canonical name (hex) of the
+  encoding whose decoder is applied.
+* `c15label <label>` — `htmlcharset.Lookup(label)`: canonical name (hex) or `none`; `c15labels` — the
+  `,`-joined hex list of all labels of the model's table.
 * `c15legacy …same… <dirty>` — the pinned tree's `peekRead`; buffers are pre-filled with the
   `dirty` pattern repeated.
 * `c15drain <peek|nil> <decid> <tbl> <segs> <term> <lwt> <bufs> <tail>` — `Read` from a state
@@ -89,6 +96,40 @@ def bomLookup (label : Bytes) : Option (Enc Bytes) :=
   else if label == ofStr "utf-16le" then some ⟨label, utf16 false⟩
   else if label == ofStr "utf-8" then some ⟨label, latin1⟩   -- decoder never used (dropUtf8)
   else none
+
+/-- canonical encoding name → decoder (Lean decoder where there is one, else the table decoder). -/
+def decOfName (tbl : List (Bytes × Bytes)) (name : Bytes) : D :=
+  if name == ofStr "windows-1252" then windows1252
+  else if name == ofStr "utf-16le" then utf16 false
+  else if name == ofStr "utf-16be" then utf16 true
+  else tableDecoder tbl
+
+def realP : Req.Prescan.Params := realParams fun _ => none
+
+/-- a decoder that "decodes" everything to its own name (to print which encoding was selected) -/
+def nameDecoder (name : Bytes) : D :=
+  { init := [], feed := fun s _ => (s, []), flush := fun _ => name, decodeAll := fun _ => name }
+
+def laneFindC : List String → String
+  | [content] =>
+    match decodeHex content with
+    | some c =>
+      match findC realP nameDecoder c with
+      | none => "none"
+      | some d => encodeHex (d.decodeAll [])
+    | none => "bad-op"
+  | _ => "bad-op"
+
+def laneLabel : List String → String
+  | [label] =>
+    match decodeHex label with
+    | some l => match realP.lookup l with
+      | some n => encodeHex n
+      | none => "none"
+    | none => "bad-op"
+  | _ => "bad-op"
+
+def laneLabels (_ : List String) : String := encodeList (Req.Labels.whatwg.map Prod.fst)
 
 def parseFilter (s : String) : Option (Option (Bytes → Bool)) :=
   if s == "default" then some none
@@ -159,14 +200,15 @@ def parseReadArgs : List String → Option ReadArgs
     let mp ← parseMp mp
     let tbl ← parsePairs tbl
     let lk ← decOf tbl lk
-    let pre ← parsePrescan tbl pre
+    let concrete := pre == "C"
+    let pre ← if concrete then some [] else parsePrescan tbl pre
     let segs ← decodeList segs
     let term ← parseTerm term
     let lwt ← parseBool lwt
     let bufs ← decodeNatList bufs
     let tail ← tail.toNat?
     pure { cfg := ⟨dis, flt⟩, ae := ae, ct := ct, mp := mp, lk := lk,
-           find := findEncoding bomLookup (prescanOf pre),
+           find := if concrete then findC realP (decOfName tbl) else findEncoding bomLookup (prescanOf pre),
            src := ⟨segs, term, lwt⟩,
            bufs := bufs, tail := tail, fuel := fuelFor segs tbl }
   | _ => none
@@ -365,6 +407,9 @@ def lanes : List (String × (List String → String)) := [
   ("c15readp", laneReadP),
   ("c15cfg", laneCfg),
   ("c15hdrs", laneHdrs),
+  ("c15findc", laneFindC),
+  ("c15label", laneLabel),
+  ("c15labels", laneLabels),
   ("c15legacy", laneLegacy),
   ("c15drain", laneDrain),
   ("c15dec", laneDec),
